@@ -27,6 +27,7 @@ QUICK = [
     ('ext_transport', dict(T=3), None, 'B'),
     ('split_two_node', dict(T=4, freq='12h', unit='h'), 'd', 'A'),
     ('window_transport', dict(T=4, win_t=(1, 3)), None, 'B'),
+    ('windows_gap', dict(T=4), None, 'B'),
 ]
 THOROUGH = QUICK + [
     ('two_node_T4', dict(T=4, wacc=True), None, 'B'),
@@ -47,8 +48,10 @@ THOROUGH = QUICK + [
     ('split_two_node_T6', dict(T=6, freq='8h', unit='h', wacc=True), 'd', 'A'),
     ('split_unaligned', dict(T=5, freq='6h', unit='h'), 'd', 'A'),
     ('split_orderbook', dict(T=4, freq='12h'), 'd', 'A'),
+    ('windows_gap_two_nodes', dict(T=5, wins=((0, 2), (1, 2), (3, 5), (4, 5)), two_nodes=True), None, 'B'),
+    ('windows_gap_split', dict(T=4, wins=((0, 1), (0, 1), (3, 4), (3, 4))), '4h', 'A'),
 ]
-SHAPE_OF = dict(two_node_2n_storage='two_node', plant_fuel='plant', chp_fuel='plant', coarse_contract='coarse',
+SHAPE_OF = dict(windows_gap='windows', windows_gap_two_nodes='windows', windows_gap_split='windows', two_node_2n_storage='two_node', plant_fuel='plant', chp_fuel='plant', coarse_contract='coarse',
                 coarse_transport='coarse', periodic_transport='periodic', scaled_transport='scaled',
                 split_two_node='two_node', window_transport='two_node', two_node_T4='two_node',
                 multicommodity_win='multicommodity', plant_fuel_mr='plant', chp_T3='plant', coarse_contract_win='coarse',
@@ -77,8 +80,6 @@ def cases(tier, seed):
     for cid, kw, split, level in lst:
         shape = SHAPE_OF.get(cid, cid)
         kw = dict(kw)
-        if shape == 'orderbook' and 'freq' in kw:
-            kw.pop('freq')
         out.append((cid, dict(shape=shape, kw=kw, split=split, level=level)))
     return out
 
